@@ -287,6 +287,47 @@ def similar_harness(e):
     return scenario
 
 
+class _Tag(str):
+    """A str subclass whose str() differs from its raw characters."""
+
+    def __str__(self) -> str:
+        return f"TAG<{str.__str__(self)}>"
+
+
+class _StrColor(str, __import__("enum").Enum):
+    RED = "red"
+    BLUE = "blue"
+
+
+class _IntLike(int):
+    def __str__(self) -> str:
+        return f"#{int(self)}"
+
+
+def stringlike_harness(e):
+    """A quoted regex matches at the start of str(value), whatever the type of the value: str
+    subclasses and str-mixin enums render differently from their raw characters."""
+    from pyoak.match.pattern import NodeMatcher
+
+    reset_all()
+    values = [("_Tag('red')", _Tag("red")), ("_StrColor.RED", _StrColor.RED), ("'red'", "red"), ("_IntLike(7)", _IntLike(7)), ("7", 7), ("None", None), ("('red',)", ("red",))]
+    regexes = ["red", "TAG<", "_StrColor", "TAG<red>$", ".*RED", "#7", "7", "\\(", "None"]
+    vno, rno = e.choice(len(values), "value"), e.choice(len(regexes), "regex")
+    label, value = values[vno]
+    node = build(R("VStr2", {"a": value, "b": "x"}))
+    desc = T(["VStr2"], ("a", ("val", ("re", regexes[rno])), "c"))
+    text = PR.render(desc)
+    matcher, msg = NodeMatcher.from_pattern(text)
+    scenario: dict[str, Any] = {"value": label, "str_of_value": str(value), "regex": regexes[rno]}
+    if matcher is None:
+        scenario.update(pattern=text, message=msg)
+        e.fail("well-formed-pattern-does-not-compile", scenario=scenario)
+    ok, caps = matcher.match(node)
+    _compare(e, text, desc, node, ok, dict(caps), scenario)
+    e.distinct((vno, rno))
+    return scenario
+
+
 RULES = [
     ("leafcap", T(["VLeaf"], ("v", None, "x"))), ("mixed_first", T(["VMixed"], ("first", None, "f"))), ("anynode", T("*")),
     ("mixed_tail", T(["VMixed"], ("items", ("seq", [(T(["VLeaf"]), "h")], ("*", "t")), None))), ("many", T(["VMany"], ("items", None, None))),
@@ -359,6 +400,7 @@ def spec(tier: str, seed: int) -> Spec:
     var = "selectors: pattern derivation, node, cache state"
     fams = [Family(f"single[{k}:{k + chunk}]", make_harness(single[k : k + chunk]), variables=var) for k in range(0, len(single), chunk)]
     fams.append(Family("multi-field", make_harness(multi), variables=var))
+    fams.append(Family("string-like-values", stringlike_harness, variables="selectors: value (str subclass, str-mixin enum, int subclass, plain), regex"))
     fams.append(Family("similar-pattern-texts", similar_harness, variables="selectors: two regexes that differ in white space, two token layouts, value, entry point"))
     fams.append(Family("multi-pattern-matcher", multi_harness, variables="selectors: ordered rule selection, rules argument, node"))
     return Spec(
